@@ -2616,7 +2616,7 @@ impl Formatter {
         <span class=\"mech-right-paren\">)</span>
       </span>", name, value)
     } else {
-      format!("{}{}", name, value)
+      format!(":{}({})", name, value)
     }
   }
 
